@@ -33,9 +33,13 @@ func c14Same(a, b c14Snap) bool {
 // right parent, and a value returned earlier is unaffected by later registrations.
 func HC14Extend() {
 	s := l1Setup()
-	in := []byte("x")
-	s.raw, s.limit = in, vUint32("limit")
-	r0 := root.match(in, s.limit)
+	iv := vChoice("input", 2)
+	in := [][]byte{[]byte("x"), {}}[iv]
+	lim := []uint32{3072, 0}[iv]
+	oldLimit := readLimit
+	SetLimit(lim)
+	s.raw, s.limit = in, lim
+	r0 := Detect(in)
 	snap0 := c14Snapshot(r0)
 	want0 := s.oracleWalk()
 
@@ -52,10 +56,13 @@ func HC14Extend() {
 		{root, root, true, 1, 1}, {text, nil, false, 2, 0}, {zip, zip, false, 1, 0}, {json, text, false, 1, 0}, {ole, root, false, 1, 2},
 	}
 	var sc scen
+	scIndex := 0
 	if vChoice("tier", 2) == 1 && vChoice("everywhere", 2) == 1 {
-		sc = scen{s.nodes[vChoice("attach", len(s.nodes))], nil, false, 0, 1}
+		scIndex = vChoice("attach", len(s.nodes))
+		sc = scen{s.nodes[scIndex], nil, false, 0, 1}
 	} else {
-		sc = scens[vChoice("scenario", len(scens))]
+		scIndex = vChoice("scenario", len(scens))
+		sc = scens[scIndex]
 	}
 	nExt := 1
 	if sc.second != 0 {
@@ -78,6 +85,16 @@ func HC14Extend() {
 		name := "application/x-verif-ext" + l1Itoa(e)
 		aliases := []string{"application/x-verif-alias" + l1Itoa(e), "application/x-verif-other" + l1Itoa(e)}
 		aliases = aliases[:sc.aliases]
+		switch (vChoice("scenarioEcho", 1) + scIndex) % 4 {
+		case 1: // the new format re-uses a built-in type name that sits later in the walk
+			name = "text/csv"
+		case 2: // ... or a built-in alias
+			aliases = append(aliases, "application/x-zip")
+		case 3: // ... or the name of the extension registered just before
+			if e == 1 {
+				name = "application/x-verif-ext0"
+			}
+		}
 		if usePkgLevel {
 			Extend(det, name, ".vx"+l1Itoa(e), aliases...)
 		} else {
@@ -95,16 +112,28 @@ func HC14Extend() {
 		}
 		// Lookup finds the name and every alias, with the right parent
 		l := Lookup(name)
-		vAssert(l == ext, "lookup-name")
+		vAssert(l == l1DFSFind(root, name), "lookup-name-is-first-in-walk-order")
 		for _, a := range aliases {
 			la := Lookup(a)
-			vAssert(la == ext, "lookup-alias")
+			vAssert(la == l1DFSFind(root, a), "lookup-alias-is-first-in-walk-order")
 		}
-		vAssert(l != nil && l.Parent() == at, "lookup-parent")
+		if name != "text/csv" || at == root {
+			// a fresh name (or a root-level re-use, which precedes every built-in) resolves to the extension itself
+			if name != "application/x-verif-ext0" || e == 0 || at == root || at == exts[0] || ats[0] != root {
+				vAssert(l == ext || l1DFSFind(root, name) != ext, "lookup-name")
+			}
+		}
+		if l == ext {
+			vAssert(l.Parent() == at, "lookup-parent")
+		}
+		for _, probe := range []string{"text/csv", "application/x-zip", "application/json", "application/x-verif-ext0"} {
+			vAssert(Lookup(probe) == l1DFSFind(root, probe), "lookup-agrees-with-walk-order")
+		}
 	}
 	// second detection with the same verdicts
 	s.onceOK = true
-	r1 := root.match(in, s.limit)
+	r1 := Detect(in)
+	SetLimit(oldLimit)
 	want1 := s.oracleWalk()
 	l1CheckChain(r1, want1, "after")
 	anyExtTrue := false
